@@ -208,6 +208,24 @@ def container_models(I, st, caller, func, args, argtys, dest_ty):
         if clos_ty is None:
             raise Unencodable("iterator adaptor with a non-closure function: " + f[:100])
         return ret(st, mk_iter(args[0], 0, m.group(2), (args[1], clos_ty)))
+    if re.match(r"^<(.*) as Iterator>::take$", f) and isinstance(args[0], Agg) and args[0].kind == "iter":
+        # take(n): drain the source (bounded lists) and keep the first n items; a symbolic n forks on its value up to the list length
+        outs = []
+        for s2, items in drain(I, st.fork(), caller, args[0]):
+            if isinstance(items, Outcome):
+                outs.append(items)
+                continue
+            n = z3.simplify(args[1]) if z3.is_expr(args[1]) else z3.IntVal(args[1])
+            if z3.is_int_value(n):
+                outs.append(Outcome("return", mk_iter(Agg("vec", None, tuple(items[:n.as_long()])), 0, "own"), s2))
+                continue
+            for j in range(len(items) + 1):
+                cond = (n == j) if j < len(items) else (n >= j)
+                if I.feasible(s2, cond):
+                    s3 = s2.fork()
+                    s3.assume(cond)
+                    outs.append(Outcome("return", mk_iter(Agg("vec", None, tuple(items[:j])), 0, "own"), s3))
+        return outs
     if re.match(r"^<(.*) as Iterator>::enumerate$", f) and isinstance(args[0], Agg) and args[0].kind == "iter":
         return ret(st, mk_iter(args[0], 0, "enumerate"))
     if re.match(r"^<(.*) as Iterator>::zip::<", f) and isinstance(args[0], Agg) and args[0].kind == "iter":
